@@ -318,6 +318,9 @@ impl<const H: usize> Writer<H> {
 
         self.flushed_offset.set(offset);
         self.write_offset = offset;
+        // Keep the buffered writer's file cursor in step with the logical write offset,
+        // otherwise the next append lands after the truncated tail instead of at `offset`.
+        self.writer.seek(SeekFrom::Start(offset))?;
 
         // Write full zero header as clear truncation marker
         let zero_header = [0u8; RECORD_HEAD_SIZE];
